@@ -101,6 +101,8 @@ E('prod[3]', algopy.prod, np.prod, [u((3,), 'any')], tags=('shape',), atol=4)
 E('prod[]', algopy.prod, np.prod, [u((), 'any')], tags=('shape',), atol=4)
 E('prod[2,3]', algopy.prod, np.prod, [u((2, 3), 'any')], tags=('shape',), atol=4)
 E('trace[3,3]', algopy.trace, np.trace, [u((3, 3), 'any')], tags=('shape',))
+for _s in [(2, 3), (3, 2), (4, 2), (5, 1), (1, 4)]:
+    E('trace%s' % list(_s), algopy.trace, np.trace, [u(_s, 'any')], tags=('shape',))
 E('reshape[2,3]->(3,2)', lambda x: algopy.reshape(x, (3, 2)), lambda x: np.reshape(x, (3, 2)), [u((2, 3), 'any')], tags=('shape',))
 E('reshape[2,3]->(6,)', lambda x: algopy.reshape(x, (6,)), lambda x: np.reshape(x, (6,)), [u((2, 3), 'any')], tags=('shape',))
 E('transpose[2,3]', algopy.transpose, np.transpose, [u((2, 3), 'any')], tags=('shape',))
